@@ -159,7 +159,7 @@ def run(ctx: Check) -> int:
     # ---- recorded engine traces: correspondence incl. time stamps, and the oracle on the same runs
     cases = corpus_cases()
     n_corpus = len(cases)
-    cases += [tagrep.gen_case(rng, malformed=(i % 6 == 5)) for i in range(ctx.n(40, 1200))]
+    cases += [tagrep.gen_case(rng, malformed=(i % 6 == 5)) for i in range(ctx.n(30, 1200))]
     cases += [tagrep.gen_lock_case(rng) for _ in range(ctx.n(6, 150))]      # blocks that wait for the block lock
     results: dict[int, dict] = {}
 
@@ -204,7 +204,7 @@ def run(ctx: Check) -> int:
         ctx.evaluations += 1
 
     # ---- unit operations with adversarial time arguments (zero stamp, tick numbers, earlier times)
-    unit_cases = [tagrep.gen_unit_ops(rng, rng.randrange(8, 40)) for _ in range(ctx.n(150, 5000))]
+    unit_cases = [tagrep.gen_unit_ops(rng, rng.randrange(8, 40)) for _ in range(ctx.n(100, 5000))]
     cache: dict[int, tuple[list[str], list[str]]] = {}
 
     def unit(c):
@@ -217,7 +217,7 @@ def run(ctx: Check) -> int:
 
     # ---- more oracle runs; some with a wall clock that advances inside the tick
     tolerated = [0]
-    more = [(tagrep.gen_case(rng, malformed=(i % 6 == 5)), SKEW if i % 4 == 3 else 0.0) for i in range(ctx.n(60, 3000))]
+    more = [(tagrep.gen_case(rng, malformed=(i % 6 == 5)), SKEW if i % 4 == 3 else 0.0) for i in range(ctx.n(50, 3000))]
     more += [(tagrep.gen_gap_case(rng), 0.0) for _ in range(ctx.n(10, 300))]    # reports after gaps of 1..300 ticks
 
     more += [(tagrep.gen_lock_case(rng), 0.0) for _ in range(ctx.n(10, 300))]
